@@ -79,6 +79,9 @@ pub fn ser_all(v: &DVal) -> Result<Result<Vec<u8>, &'static str>, String> {
         (Err(e1), Err(e2)) if err_name(e1) == err_name(&e2) => {}
         (l, r) => return Err(format!("serialized_size {:?} vs to_allocvec {:?}", r, l.as_ref().map(|b| b.len()))),
     }
+    if crate::dval::HR_SEEN.with(|c| c.replace(false)) {
+        return Err("a serializer handed to the value claims is_human_readable() = true".into());
+    }
     Ok(a.map_err(|e| err_name(&e)))
 }
 
@@ -115,6 +118,20 @@ pub fn de_all(t: &DTy, bytes: &[u8]) -> Result<DeRes, String> {
     if owned != Ok(take.clone()) {
         return Err(format!("entry-mismatch deserialize_string/byte_buf {:?} vs deserialize_str/bytes {:?}", owned, take));
     }
+    // an empty variant-name list (what a hand-written Deserialize impl may pass) changes nothing
+    let nameless: Result<DeRes, ()> = guard(|| {
+        crate::dval::NO_VARIANT_NAMES.with(|c| c.set(true));
+        let r = with_ty(t, || postcard::take_from_bytes::<DynVal>(bytes).map(|(v, r)| (v.0, r.to_vec())).map_err(|e| err_name(&e)));
+        crate::dval::NO_VARIANT_NAMES.with(|c| c.set(false));
+        r
+    });
+    crate::dval::NO_VARIANT_NAMES.with(|c| c.set(false));
+    if nameless != Ok(take.clone()) {
+        return Err(format!("entry-mismatch deserialize_enum with an empty name list {:?} vs the full list {:?}", nameless, take));
+    }
+    if crate::dval::HR_SEEN.with(|c| c.replace(false)) {
+        return Err("a deserializer handed to the value claims is_human_readable() = true".into());
+    }
     // byte reader with ample scratch: same value, reader left exactly at the remainder
     let io = guard(|| {
         let mut scratch = vec![0u8; bytes.len() + 8];
@@ -145,4 +162,42 @@ pub fn de_all(t: &DTy, bytes: &[u8]) -> Result<DeRes, String> {
         }
     }
     Ok(take)
+}
+
+/// Calls that FAIL part-way through every encode / decode entry point. Run before every op line: no entry
+/// point may keep state from one call to the next (scratch buffers, thread-locals, statics), so a failed
+/// call must not change what the next call does.
+pub fn poison() {
+    use crate::dval::DVal as V;
+    thread_local! {
+        static BAD: V = V::Tuple(vec![V::Str("poison-poison-poison".into()), V::U(64, u64::MAX as u128), V::SeqAnn(None, vec![V::U(8, 1)])]);
+    }
+    BAD.with(|bad| {
+        let _ = guard(|| {
+            let _ = postcard::to_allocvec(bad);
+            let _ = postcard::to_stdvec(bad);
+            let _ = postcard::to_allocvec_cobs(bad);
+            let _ = postcard::to_stdvec_cobs(bad);
+            let _ = postcard::to_vec::<_, 64>(bad);
+            let _ = postcard::to_vec_cobs::<_, 64>(bad);
+            let mut small = [0u8; 9];
+            let _ = postcard::to_slice(bad, &mut small);
+            let _ = postcard::to_slice_cobs(bad, &mut small);
+            let _ = postcard::to_extend(bad, Vec::new());
+            let _ = postcard::to_io(bad, Vec::new());
+            let _ = postcard::experimental::serialized_size(bad);
+            let c = crc::Crc::<u32>::new(&crc::CRC_32_ISO_HDLC);
+            let _ = postcard::to_allocvec_crc32(bad, c.digest());
+            let _ = postcard::to_stdvec_crc32(bad, c.digest());
+            // decoders: truncated, malformed framing, bad checksum
+            let _ = postcard::from_bytes::<(String, u64, Vec<u8>)>(&[0x14, b'p', b'o']);
+            let mut f = [0x05u8, 0x14, b'p', 0x00];
+            let _ = postcard::from_bytes_cobs::<(String, u64)>(&mut f);
+            let mut f = [0x03u8, 0x14, b'p', 0x00, 0x01];
+            let _ = postcard::take_from_bytes_cobs::<(String, u64)>(&mut f);
+            let _ = postcard::from_bytes_crc32::<(u8, u8)>(&[1, 2, 3, 4, 5, 6], c.digest());
+            let mut scratch = [0u8; 4];
+            let _ = postcard::from_io::<(String, u64), _>((&[0x14u8, b'p', b'o', b'i', b's', b'o', b'n'][..], &mut scratch[..]));
+        });
+    });
 }
